@@ -14,7 +14,7 @@ Definition ctx_step (mi : module_info) (cmc : list ident) (locals : list (list s
       end
   | ELet pat _ _ =>
       let cmc1 := match find_pattern_module_context mi pat with Some c => c | None => cmc end in
-      match i with O => (cmc1, locals) | S _ => (cmc1, pat :: locals) end
+      match i with O => (cmc1, locals) | S _ => (cmc, pat :: locals) end
   | ELam ps _ => (cmc, ps :: locals)
   | _ => (cmc, locals)
   end.
@@ -50,7 +50,7 @@ Proof.
     set (cmc1 := match find_pattern_module_context mi pat with Some c0 => c0 | None => cmc end) in *.
     destruct (convert_expr mi known cmc1 locals e1) as [b' er1] eqn:E1.
     destruct e2 as [t|].
-    + destruct (convert_expr mi known cmc1 (pat :: locals) t) as [t' er2] eqn:E2. inversion H; subst. clear H.
+    + destruct (convert_expr mi known cmc (pat :: locals) t) as [t' er2] eqn:E2. inversion H; subst. clear H.
       destruct i as [|[|i]]; cbn in Hc; inversion Hc; subst; cbn [fst snd].
       * exists b', er1. repeat split; auto. apply incl_app_l.
       * exists t', er2. repeat split; auto. apply incl_app_r.
@@ -144,37 +144,53 @@ Proof.
   - destruct (nth_error (children e) i) as [c|] eqn:Hc; [|discriminate]. eapply IH; [|exact H]. eapply src_child; eauto.
 Qed.
 
-Lemma ctx_inv_short_key : forall mi x, ctx_inv mi -> List.length x = 1 -> assoc x (module_context_map mi) = None.
+(* no binder of e (`let` pattern, `letrec` name) has an entry in module_context_map *)
+Definition ctx_free (mi : module_info) (e : expr) : Prop :=
+  forall x, In x (ctx_binders e) -> assoc x (module_context_map mi) = None.
+
+Lemma ctx_binders_child : forall e i c x, nth_error (children e) i = Some c -> In x (ctx_binders c) -> In x (ctx_binders e).
 Proof.
-  intros mi x HI Hl. destruct (assoc x (module_context_map mi)) as [c|] eqn:E; auto.
-  destruct (HI _ _ E) as [n [Hk Hc]]. subst x. rewrite app_length in Hl. cbn in Hl. destruct c; [contradiction|cbn in Hl; lia].
+  intros e i c x Hc Hx.
+  destruct e as [n| |y|p|pat e1 e2|f e1 e2|ps b|f args|e1 e2]; cbn [children] in Hc; cbn [ctx_binders];
+    try (destruct i; discriminate).
+  - apply in_or_app. right. apply in_or_app. destruct i as [|i]; cbn in Hc. inversion Hc; subst; auto.
+    destruct e2 as [t|]; [|destruct i; discriminate]. destruct i; cbn in Hc; [|destruct i; discriminate]. inversion Hc; subst; auto.
+  - right. apply in_or_app. destruct i as [|i]; cbn in Hc. inversion Hc; subst; auto.
+    destruct e2 as [t|]; [|destruct i; discriminate]. destruct i; cbn in Hc; [|destruct i; discriminate]. inversion Hc; subst; auto.
+  - destruct i as [|i]; cbn in Hc; [|destruct i; discriminate]. inversion Hc; subst; auto.
+  - apply in_or_app. destruct i as [|i]; cbn in Hc. inversion Hc; subst; auto.
+    right. apply in_flat_map. exists c. split; auto. eapply nth_error_In. exact Hc.
+  - apply in_or_app. destruct i as [|i]; cbn in Hc. inversion Hc; subst; auto.
+    destruct e2 as [t|]; [|destruct i; discriminate]. destruct i; cbn in Hc; [|destruct i; discriminate]. inversion Hc; subst; auto.
 Qed.
 
-Lemma find_pattern_short : forall mi pat,
-    ctx_inv mi -> forallb (fun x => List.length x =? 1) pat = true -> find_pattern_module_context mi pat = None.
+Lemma ctx_free_child : forall mi e i c, ctx_free mi e -> nth_error (children e) i = Some c -> ctx_free mi c.
+Proof. intros mi e i c H Hc x Hx. apply H. eapply ctx_binders_child; eauto. Qed.
+
+Lemma find_pattern_free : forall mi pat,
+    (forall x, In x pat -> assoc x (module_context_map mi) = None) -> find_pattern_module_context mi pat = None.
 Proof.
-  intros mi pat HI. induction pat as [|x r IH]; cbn [find_pattern_module_context forallb]; intro H; auto.
-  apply andb_true_iff in H. destruct H as [H1 H2]. apply Nat.eqb_eq in H1.
-  rewrite (ctx_inv_short_key _ _ HI H1). apply IH. exact H2.
+  intros mi pat. induction pat as [|x r IH]; cbn [find_pattern_module_context]; intro H; auto.
+  rewrite (H x (or_introl eq_refl)). apply IH. intros y Hy. apply H. right. exact Hy.
 Qed.
 
-(* inside a source expression the module context is the one we entered with, or empty (after a local letrec) *)
+(* inside an expression none of whose binders has a context entry, the module context is the one we entered
+   with, or empty (after a local letrec) *)
 Lemma ctx_at_src : forall mi p e cmc locals,
-    ctx_inv mi -> src_expr e = true ->
+    ctx_free mi e ->
     fst (ctx_at mi cmc locals e p) = cmc \/ fst (ctx_at mi cmc locals e p) = [].
 Proof.
-  intros mi p. induction p as [|i p IH]; intros e cmc locals HI Hs; cbn [ctx_at]. left; reflexivity.
+  intros mi p. induction p as [|i p IH]; intros e cmc locals HF; cbn [ctx_at]. left; reflexivity.
   destruct (nth_error (children e) i) as [c|] eqn:Hc; [|left; reflexivity].
-  assert (Hsc : src_expr c = true) by (eapply src_child; eauto).
+  assert (Hfc : ctx_free mi c) by (eapply ctx_free_child; eauto).
   assert (Hstep : fst (ctx_step mi cmc locals e i) = cmc \/ fst (ctx_step mi cmc locals e i) = []).
   { destruct e as [n| |x|q|pat e1 e2|f e1 e2|ps b|f args|e1 e2]; cbn [ctx_step fst]; auto.
-    - cbn [src_expr] in Hs. apply andb_true_iff in Hs. destruct Hs as [Hs _]. apply andb_true_iff in Hs. destruct Hs as [Hp _].
-      rewrite (find_pattern_short _ _ HI Hp). destruct i; auto.
-    - cbn [src_expr] in Hs. apply andb_true_iff in Hs. destruct Hs as [Hs _]. apply andb_true_iff in Hs. destruct Hs as [Hp _].
-      apply Nat.eqb_eq in Hp. rewrite (ctx_inv_short_key _ _ HI Hp). destruct i; auto. }
+    - rewrite (find_pattern_free mi pat). destruct i; auto.
+      intros x Hx. apply HF. cbn [ctx_binders]. apply in_or_app. left. exact Hx.
+    - rewrite (HF f). destruct i; auto. cbn [ctx_binders]. left. reflexivity. }
   destruct Hstep as [E|E]; rewrite E.
   - apply IH; auto.
-  - destruct (IH c [] (snd (ctx_step mi cmc locals e i)) HI Hsc) as [E2|E2]; right; exact E2.
+  - destruct (IH c [] (snd (ctx_step mi cmc locals e i)) Hfc) as [E2|E2]; right; exact E2.
 Qed.
 
 (* the scope stack only grows on the way down *)
@@ -223,10 +239,11 @@ Proof. intros st r. unfold expr_from_stmts. cbn [into_then_expr]. destruct st; r
 Lemma into_then_expr_some : forall r, r <> [] -> into_then_expr r = Some (expr_from_stmts r).
 Proof. intros r H. unfold expr_from_stmts. destruct r as [|st r]; [contradiction|]. cbn [into_then_expr]. destruct st; reflexivity. Qed.
 
-(* statement k of the chain is converted with module context [] (a `let`) or the function's entry of the
-   context map (a function), and lands at index k of the converted chain *)
+(* Statement k of the chain is converted starting from the EMPTY module context, whatever precedes it: a
+   function with its entry of the context map (or none), a `let` with the entry of its pattern (or none); it lands
+   at index k of the converted chain.  (Before the repair of the Let arm this held only for chains without a
+   context entry for any `let` pattern: a `let` with an entry passed its context on to everything after it.) *)
 Lemma convert_chain_nth : forall mi known stmts locals e' errs k st,
-    (forall pat e, In (SLet pat e) stmts -> find_pattern_module_context mi pat = None) ->
     convert_expr mi known [] locals (expr_from_stmts stmts) = (e', errs) ->
     nth_error stmts k = Some st ->
     exists locals_k sub' errs',
@@ -237,16 +254,19 @@ Lemma convert_chain_nth : forall mi known stmts locals e' errs k st,
                        ([f] :: locals_k) x = (sub', errs')
           /\ nth_error (chain_stmts e') k = Some (SLetRec f sub')
       | SLet pat x =>
-          convert_expr mi known [] locals_k x = (sub', errs') /\ nth_error (chain_stmts e') k = Some (SLet pat sub')
+          convert_expr mi known (match find_pattern_module_context mi pat with Some c => c | None => [] end)
+                       locals_k x = (sub', errs')
+          /\ nth_error (chain_stmts e') k = Some (SLet pat sub')
       end.
 Proof.
-  intros mi known stmts. induction stmts as [|st0 r IH]; intros locals e' errs k st Hlet H Hn.
+  intros mi known stmts. induction stmts as [|st0 r IH]; intros locals e' errs k st H Hn.
   - destruct k; discriminate.
   - rewrite expr_from_stmts_cons in H.
     destruct st0 as [pat x|f x].
     + (* SLet *)
-      cbn [convert_expr] in H. rewrite (Hlet pat x (or_introl eq_refl)) in H.
-      destruct (convert_expr mi known [] locals x) as [b' er1] eqn:E1.
+      cbn [convert_expr] in H.
+      set (cmcb := match find_pattern_module_context mi pat with Some c0 => c0 | None => [] end) in *.
+      destruct (convert_expr mi known cmcb locals x) as [b' er1] eqn:E1.
       destruct k as [|k].
       * cbn in Hn. inversion Hn; subst st. exists locals, b', er1.
         destruct (into_then_expr r) as [t|].
@@ -256,7 +276,7 @@ Proof.
       * cbn [nth_error] in Hn. assert (Hr : r <> []) by (intro; subst; destruct k; discriminate).
         rewrite (into_then_expr_some r Hr) in H.
         destruct (convert_expr mi known [] (pat :: locals) (expr_from_stmts r)) as [t' er2] eqn:E2. inversion H; subst.
-        destruct (IH (pat :: locals) t' er2 k st (fun p e Hin => Hlet p e (or_intror Hin)) E2 Hn) as [lk [sub' [es [Hi Hm]]]].
+        destruct (IH (pat :: locals) t' er2 k st E2 Hn) as [lk [sub' [es [Hi Hm]]]].
         exists lk, sub', es. split. intros y Hy. apply in_or_app. right. apply Hi. exact Hy.
         destruct st; cbn [chain_stmts nth_error]; exact Hm.
     + (* SLetRec *)
@@ -272,7 +292,7 @@ Proof.
       * cbn [nth_error] in Hn. assert (Hr : r <> []) by (intro; subst; destruct k; discriminate).
         rewrite (into_then_expr_some r Hr) in H.
         destruct (convert_expr mi known [] ([f] :: locals) (expr_from_stmts r)) as [t' er2] eqn:E2. inversion H; subst.
-        destruct (IH ([f] :: locals) t' er2 k st (fun p e Hin => Hlet p e (or_intror Hin)) E2 Hn) as [lk [sub' [es [Hi Hm]]]].
+        destruct (IH ([f] :: locals) t' er2 k st E2 Hn) as [lk [sub' [es [Hi Hm]]]].
         exists lk, sub', es. split. intros y Hy. apply in_or_app. right. apply Hi. exact Hy.
         destruct st; cbn [chain_stmts nth_error]; exact Hm.
 Qed.
